@@ -42,7 +42,7 @@ func runC14(c *core.Ctx) {
 	c.Rule("R6", "wrappers keep one write sink (shared with C17)", 4)
 	c.Rule("R7", "a streamed chunk handed to the write queue is not recycled or reused by the producer, and the sender's scratch lists do not overlap (shared with C10-R1/R4/R6)", 1)
 	importObligations(c, runC10, "R7", func(o *core.Obligation) bool {
-		return o.Rule == "R6" || o.Rule == "R2" || (o.Rule == "R1" || o.Rule == "R4") && (strings.Contains(o.Key, "no-use-after-transfer") || strings.Contains(o.Key, "not-after-handoff") || strings.Contains(o.Key, "transfers-fresh-buffer"))
+		return o.Rule == "R6" || o.Rule == "R2" || o.Rule == "R3" || (o.Rule == "R1" || o.Rule == "R4") && (strings.Contains(o.Key, "no-use-after-transfer") || strings.Contains(o.Key, "not-after-handoff") || strings.Contains(o.Key, "transfers-fresh-buffer"))
 	})
 
 	// "checked" means checked by a helper that raises for every error
